@@ -10,7 +10,7 @@ T = {
  "C05_m5": ("C05", "a computed repetition whose count evaluates to 0 in the input", ["C05"], None),
  "C05_m6": ("C05", "a locally ambiguous grammar and a constraint only a non-first derivation satisfies (ParseState hash without children: one derivation per item and span survives)", ["C05"], "forest completeness against independently enumerated derivations (c04_api.work_forest); this also exposed a genuine defect of the pinned tree (recorded)"),
  "C06_m5": ("C06", "a left-recursive alternative whose remaining symbols are all nullable, completed before the last column", ["C06"], None),
- "C06_m6": ("C06", "a unit-derivation cycle completed only in the last column and a FIRST-TREE request (which returns on the unchanged tree only because the tree is yielded lazily)", [], "NOT caught: the change only affects grammars with a derivation cycle, for which non-termination is an open recorded finding (any request kind); first-tree requests on those grammars are not separated from it"),
+ "C06_m6": ("C06", "a unit-derivation cycle completed only in the last column and a FIRST-TREE request (which returns on the unchanged tree only because the tree is yielded lazily)", ["C06"], "first-tree requests on the grammars with a derivation cycle; the open finding now names forest/prefix requests, and the first-tree requests that do not return on the pinned tree are listed input by input"),
  "C07_m5": ("C07", "an ExpressionConstraint (not a top-level comparison) whose expression raises for some combination and is truthy for the rest", ["C07"], None),
  "C07_m6": ("C07", "a .. selector whose match COUNT matters and two content-identical matches", ["C07"], None),
  "C08_m5": ("C08", "keyword-only parameters after *args with a defaulted one before a required one", ["C08"], "def/lambda forms def g(*p, r=1, s), def g(q, *p, r=1, s, t=2, **w), def g(*, r=1, s=2, t), method variant"),
